@@ -183,10 +183,12 @@ void h_myfileset(void)
 		G_gen = g;
 		int opens = n_fopen, objs = n_obj;
 		my_fileset_reload(fs);
-		if (changed[g]) cur = g;
-		else {
-			V_ASSERT(n_fopen == opens && n_obj == objs, "C07: unchanged setfile (same inode and mtime) must not be re-read");
-		}
+		/* a changed setfile MUST be re-read; an unchanged one need not be (my_fileset.c does not), but
+		 * an implementation that re-reads it anyway also satisfies C07: then this generation's
+		 * existence pattern is the reference */
+		if (changed[g] || n_fopen > opens) cur = g;
+		else
+			V_ASSERT(n_obj == objs, "C07: nothing may be loaded when the setfile was not read");
 		check_view(fs, want_set(cur));
 		V_ASSERT(fp_open == 0, "C18: setfile left open");
 	}
